@@ -1,0 +1,151 @@
+//go:build verif
+
+package types
+
+// Contracts for the containers and the event emitter (comment-only; read by /verif/govc).
+// The abstract view of a Slice is the sequence s.elements[0..len). "noshare" clauses say that the
+// backing array of the container is either the one it had or a freshly allocated one, never the caller's;
+// the frame (modifies) says that no cell of a caller's slice is written.
+
+//@ func (*Slice).Push(elements)
+//@   props C20, C01
+//@   opt locks
+//@   requires s != nil && heldmode(s.mu) == 0
+//@   modifies s.elements, Mem(s.elements)
+//@   ensures [C20.push.len]  result == len(s.elements) && len(s.elements) == len(old(s.elements)) + len(elements)
+//@   ensures [C20.push.keep,C01.fifo] forall k int :: 0 <= k && k < len(old(s.elements)) ==> s.elements[k] == old(s.elements[k])
+//@   ensures [C20.push.new,C01.tail]  forall k int :: len(old(s.elements)) <= k && k < len(s.elements) ==> s.elements[k] == old(elements[k - len(s.elements)])
+//@   ensures [C20.push.noshare] backing(s.elements) == backing(old(s.elements)) || fresh(backing(s.elements))
+//@   ensures [C20.push.lock] heldmode(s.mu) == 0
+
+//@ func (*Slice).Unshift(elements)
+//@   props C20
+//@   opt locks
+//@   requires s != nil && heldmode(s.mu) == 0
+//@   modifies s.elements, Mem(s.elements)
+//@   ensures [C20.unshift.len]  result == len(s.elements) && len(s.elements) == len(old(s.elements)) + len(elements)
+//@   ensures [C20.unshift.new]  forall k int :: 0 <= k && k < len(elements) ==> s.elements[k] == old(elements[k])
+//@   ensures [C20.unshift.keep] forall k int :: len(elements) <= k && k < len(s.elements) ==> s.elements[k] == old(s.elements[k - len(elements)])
+//@   ensures [C20.unshift.noshare] backing(s.elements) == backing(old(s.elements)) || fresh(backing(s.elements))
+//@   ensures [C20.unshift.lock] heldmode(s.mu) == 0
+
+//@ func (*Slice).Pop()
+//@   props C20
+//@   opt locks
+//@   requires s != nil && heldmode(s.mu) == 0
+//@   modifies s.elements
+//@   ensures [C20.pop.empty] len(old(s.elements)) == 0 ==> err == ErrSliceEmpty && s.elements == old(s.elements)
+//@   ensures [C20.pop.last]  len(old(s.elements)) > 0 ==> err == nil && element == old(s.elements[len(s.elements) - 1]) && len(s.elements) == len(old(s.elements)) - 1
+//@   ensures [C20.pop.keep]  backing(s.elements) == backing(old(s.elements)) && off(s.elements) == off(old(s.elements))
+//@   ensures [C20.pop.lock]  heldmode(s.mu) == 0
+
+//@ func (*Slice).Shift()
+//@   props C20, C18
+//@   opt locks
+//@   requires s != nil && heldmode(s.mu) == 0
+//@   modifies s.elements
+//@   ensures [C20.shift.empty] len(old(s.elements)) == 0 ==> err == ErrSliceEmpty && s.elements == old(s.elements)
+//@   ensures [C20.shift.first] len(old(s.elements)) > 0 ==> err == nil && element == old(s.elements[0]) && len(s.elements) == len(old(s.elements)) - 1
+//@   ensures [C20.shift.rest]  len(old(s.elements)) > 0 ==> backing(s.elements) == backing(old(s.elements)) && off(s.elements) == off(old(s.elements)) + 1
+//@   ensures [C20.shift.lock]  heldmode(s.mu) == 0
+
+//@ func (*Slice).Get(index)
+//@   props C20
+//@   opt locks
+//@   requires s != nil && heldmode(s.mu) == 0
+//@   modifies nothing
+//@   ensures [C20.get.err] (index < 0 || index >= len(s.elements)) ==> err == ErrIndexOutOfBounds
+//@   ensures [C20.get.ok]  0 <= index && index < len(s.elements) ==> err == nil && element == s.elements[index]
+//@   ensures [C20.get.lock] heldmode(s.mu) == 0
+
+//@ func (*Slice).Set(index, element)
+//@   props C20
+//@   opt locks
+//@   requires s != nil && heldmode(s.mu) == 0
+//@   modifies Mem(s.elements)
+//@   ensures [C20.set.err] (index < 0 || index >= len(s.elements)) ==> result == ErrIndexOutOfBounds && (forall k int :: 0 <= k && k < len(s.elements) ==> s.elements[k] == old(s.elements[k]))
+//@   ensures [C20.set.ok]  0 <= index && index < len(s.elements) ==> result == nil && s.elements[index] == element
+//@   ensures [C20.set.others] forall k int :: 0 <= k && k < len(s.elements) && k != index ==> s.elements[k] == old(s.elements[k])
+//@   ensures [C20.set.lock] heldmode(s.mu) == 0
+
+//@ func (*Slice).Slice(start, end)
+//@   props C20
+//@   opt locks
+//@   requires s != nil && heldmode(s.mu) == 0
+//@   modifies nothing
+//@   ensures [C20.slice.err] (start < 0 || end > len(s.elements) || start > end) ==> result1 == ErrInvalidSliceRange && result0 == nil
+//@   ensures [C20.slice.ok]  !(start < 0 || end > len(s.elements) || start > end) ==> result1 == nil && len(result0) == end - start
+//@   ensures [C20.slice.copy] result1 == nil ==> forall k int :: 0 <= k && k < len(result0) ==> result0[k] == s.elements[start + k]
+//@   ensures [C20.slice.noshare] result1 == nil ==> fresh(backing(result0))
+//@   ensures [C20.slice.lock] heldmode(s.mu) == 0
+
+//@ func (*Slice).all()
+//@   props C20, C01
+//@   requires s != nil
+//@   modifies nothing
+//@   ensures [C20.all.len]  len(result) == len(s.elements) && fresh(backing(result)) && off(result) == 0
+//@   ensures [C20.all.copy,C01.order] forall k int :: 0 <= k && k < len(result) ==> result[k] == s.elements[k]
+
+//@ func (*Slice).All()
+//@   props C20
+//@   opt locks
+//@   requires s != nil && heldmode(s.mu) == 0
+//@   modifies nothing
+//@   ensures [C20.All.len]  len(result) == len(s.elements) && fresh(backing(result))
+//@   ensures [C20.All.copy] forall k int :: 0 <= k && k < len(result) ==> result[k] == s.elements[k]
+//@   ensures [C20.All.lock] heldmode(s.mu) == 0
+
+//@ func (*Slice).clear()
+//@   props C20
+//@   requires s != nil
+//@   modifies s.elements
+//@   ensures [C20.clear] len(s.elements) == 0 && backing(s.elements) == backing(old(s.elements))
+
+//@ func (*Slice).Clear()
+//@   props C20, C03
+//@   opt locks
+//@   requires s != nil && heldmode(s.mu) == 0
+//@   modifies s.elements
+//@   ensures [C20.Clear] len(s.elements) == 0 && heldmode(s.mu) == 0
+
+//@ func (*Slice).AllAndClear()
+//@   props C20, C01, C18
+//@   opt locks
+//@   requires s != nil && heldmode(s.mu) == 0
+//@   modifies s.elements
+//@   ensures [C20.aac.len,C01.batch]  len(result) == len(old(s.elements)) && fresh(backing(result))
+//@   ensures [C20.aac.copy,C01.batchorder] forall k int :: 0 <= k && k < len(result) ==> result[k] == old(s.elements[k])
+//@   ensures [C20.aac.cleared,C01.once] len(s.elements) == 0
+//@   ensures [C20.aac.lock] heldmode(s.mu) == 0
+
+//@ func (*Slice).Len()
+//@   props C20
+//@   opt locks
+//@   requires s != nil && heldmode(s.mu) == 0
+//@   modifies nothing
+//@   ensures [C20.len] result == len(s.elements) && heldmode(s.mu) == 0
+
+//@ func (*Slice).splice(start, deleteCount, insert)
+//@   props C20
+//@   requires s != nil
+//@   modifies s.elements, Mem(s.elements)
+//@   let n  = len(old(s.elements))
+//@   let dc = deleteCount < n - start ? deleteCount : n - start
+//@   let bad = start < 0 || start > n || deleteCount < 0
+//@   ensures [C20.splice.err]   (start < 0 || start > n) ==> result1 == ErrIndexOutOfBounds
+//@   ensures [C20.splice.count] 0 <= start && start <= n && deleteCount < 0 ==> result1 == ErrInvalidSliceRange
+//@   ensures [C20.splice.unchanged] bad ==> result1 != nil && result0 == nil && s.elements == old(s.elements)
+//@   ensures [C20.splice.ok]    !bad ==> result1 == nil && len(result0) == dc && (dc == 0 || fresh(backing(result0)))
+//@   ensures [C20.splice.removed] result1 == nil ==> forall k int :: 0 <= k && k < len(result0) ==> result0[k] == old(s.elements[start + k])
+//@   ensures [C20.splice.len]   result1 == nil ==> len(s.elements) == n - dc + len(insert)
+//@   ensures [C20.splice.noshare] backing(s.elements) == backing(old(s.elements)) || fresh(backing(s.elements))
+//@   ensures [C20.splice.prefix]  result1 == nil ==> forall k int :: 0 <= k && k < start ==> s.elements[k] == old(s.elements[k])
+
+//@ func (*Slice).Splice(start, deleteCount, insert)
+//@   props C20
+//@   opt locks
+//@   requires s != nil && heldmode(s.mu) == 0
+//@   modifies s.elements, Mem(s.elements)
+//@   ensures [C20.Splice.err] (start < 0 || start > len(old(s.elements))) ==> result1 == ErrIndexOutOfBounds && result0 == nil
+//@   ensures [C20.Splice.noshare] backing(s.elements) == backing(old(s.elements)) || fresh(backing(s.elements))
+//@   ensures [C20.Splice.lock] heldmode(s.mu) == 0
